@@ -621,7 +621,7 @@ func c19GenSign(r *Run) *auctioneerrpc.OrderMatchSignBegin {
 	for i := rng.Intn(3); i > 0; i-- {
 		k := hex.EncodeToString(decRandKey(rng).SerializeCompressed())
 		n := c19RandBytes(rng, 66)
-		switch rng.Intn(8) {
+		switch rng.Intn(9) {
 		case 0:
 			k = k[:64]
 			r.Count("defect/sign-key-len")
@@ -634,6 +634,10 @@ func c19GenSign(r *Run) *auctioneerrpc.OrderMatchSignBegin {
 		case 3:
 			n = nil
 			r.Count("defect/sign-nonce-len")
+		case 4:
+			// boundary keys: empty, one byte, odd length
+			k = []string{"", "02", "0", k + "00"}[rng.Intn(4)]
+			r.Count("defect/sign-key-boundary")
 		}
 		m.ServerNonces[k] = n
 	}
